@@ -458,7 +458,11 @@ class Emulator:
             decoder = CachedFetchDecoder(fecher, ADDRESS_SPACE_SIZE)
         else:
             decoder = FetchDecoder(fecher, ADDRESS_SPACE_SIZE)
-        instr = decode(decoder, address, OPCODES)  # type: ignore
+        try:
+            instr = decode(decoder, address, OPCODES)  # type: ignore
+        except AssertionError:
+            # Invalid operand encoding: use the same placeholder as undecodable bytes.
+            instr = None
         if instr is None:
             opcode = self.memory.read_byte(address) & 0xFF
             instr = _FallbackInstruction(opcode)
